@@ -153,6 +153,9 @@ def check(rep, tier, seed):
                           "correctness of the kernel's elevation bit (C06)"]
     rep.trusted += ["z3 4.8.12 (sequence theory for the ip string)", "mirsym MIR semantics (lib/mirsym.py)"]
 
+    import e2e
+    e2e.confirm(rep, "C03")
+
 
 def replay(path):
     print(open(path).read())
